@@ -20,3 +20,81 @@ package segfetcher
 //@   loop 1 invariant forall x addr.IA :: inmap(destinations, x) ==> seg.isFirstIA(cores, x) || (isd(dst) == isd(p.IA) && seg.isFirstIA(ups, x))
 //@   ensures isd(dst) != 0 && asn(dst) != 0 ==> forall x addr.IA :: inmap(result, x) == (x == dst)
 //@   ensures isd(dst) == 0 || asn(dst) == 0 ==> forall x addr.IA :: inmap(result, x) ==> seg.isFirstIA(cores, x) || (isd(dst) == isd(p.IA) && seg.isFirstIA(ups, x))
+
+//@ import trust "github.com/scionproto/scion/private/trust"
+//@ iface trust.Inspector.ByAttributes
+//@   modifies nothing
+//@ iface trust.Inspector.HasAttributes
+//@   modifies nothing
+
+//@ # the wildcard of an ISD-AS: same ISD, AS 0
+//@ func toWildCard
+//@   props C30
+//@   modifies nothing
+//@   ensures isd(result) == isd(ia) && asn(result) == 0
+
+//@ # Split: the requests form a chain of at most one up, one core and one down segment, in this order, from the
+//@ # local AS to the destination; consecutive requests meet at the same (possibly wildcard) ISD-AS
+//@ macro tyRank(t) = ite(t == seg.TypeUp, 0, ite(t == seg.TypeCore, 1, 2))
+//@ func (*MultiSegmentSplitter).Split
+//@   props C30
+//@   requires s != nil
+//@   modifies nothing
+//@   ensures result1 == nil && s.Inspector != nil ==> 1 <= len(result0) && len(result0) <= 3
+//@   ensures result1 == nil && s.Inspector != nil ==> result0[0].Src == s.LocalIA && result0[len(result0)-1].Dst == dst
+//@   ensures result1 == nil && s.Inspector != nil && len(result0) >= 2 ==> result0[0].Dst == result0[1].Src && tyRank(result0[0].SegType) < tyRank(result0[1].SegType)
+//@   ensures result1 == nil && s.Inspector != nil && len(result0) == 3 ==> result0[1].Dst == result0[2].Src && tyRank(result0[1].SegType) < tyRank(result0[2].SegType)
+//@   ensures result1 == nil && s.Inspector != nil && !s.Core ==> result0[0].SegType == seg.TypeUp
+//@   ensures result1 == nil && s.Inspector != nil && s.Core ==> result0[0].SegType != seg.TypeUp
+
+//@ func (*MultiSegmentSplitter).inspect
+//@   props C30
+//@   requires s != nil
+//@   modifies nothing
+//@   loop 1 invariant 0 <= (rangeindex+1) && (rangeindex+1) <= len(cores)
+
+//@ import combinator "github.com/scionproto/scion/private/path/combinator"
+//@ import revcache "github.com/scionproto/scion/private/revcache"
+//@ import path_mgmt "github.com/scionproto/scion/pkg/private/ctrl/path_mgmt"
+//@ import log "github.com/scionproto/scion/pkg/log"
+//@ extern github.com/scionproto/scion/private/path/combinator.Combine
+//@   modifies nothing
+//@ func categorizeSegs
+//@   trusted
+//@   modifies nothing
+//@ func revocationsString
+//@   trusted
+//@   modifies nothing
+//@ extern github.com/scionproto/scion/pkg/log.FromCtx
+//@   modifies nothing
+//@   ensures result != nil
+//@ iface log.Logger.Enabled
+//@   modifies nothing
+
+//@ # only paths that have not expired at the time of the lookup are kept
+//@ func (*Pather).buildAllPaths
+//@   props C30
+//@   requires p != nil
+//@   modifies time.lastNow
+//@   loop 1 havoc
+//@   loop 2 invariant 0 <= (rangeindex+1) && (rangeindex+1) <= len(paths) && now.ext == time.lastNow
+//@   loop 2 invariant forall i int :: 0 <= i && i < len(validPaths) ==> validPaths[i].Metadata.Expiry.ext > now.ext
+//@   ensures forall i int :: 0 <= i && i < len(result) ==> result[i].Metadata.Expiry.ext > time.lastNow
+
+//@ # revAnswer names what the revocation cache answers for an interface at the time of the lookup
+//@ spec func revAnswer(c revcache.RevCache, ia addr.IA, id uint64) *path_mgmt.RevInfo uninterpreted
+//@ iface revcache.RevCache.Get
+//@   modifies nothing
+//@   ensures result0 == revAnswer(self, key.IA, uint64(key.IfID))
+//@ macro unrevoked(p, cp) = (forall k int :: 0 <= k && k < len(cp.Metadata.Interfaces) ==> revAnswer(p.RevCache, cp.Metadata.Interfaces[k].IA, uint64(cp.Metadata.Interfaces[k].ID)) == nil)
+//@ # a path is handed on only if the cache knows no revocation for any of its interfaces
+//@ func (*Pather).filterRevoked
+//@   props C30
+//@   requires p != nil && p.RevCache != nil
+//@   modifies nothing
+//@   loop 1 invariant 0 <= (rangeindex+1) && (rangeindex+1) <= len(paths) && revokedInterfaces != nil
+//@   loop 1 invariant forall i int :: 0 <= i && i < len(newPaths) ==> unrevoked(p, newPaths[i])
+//@   loop 2 invariant 0 <= (rangeindex+1) && (rangeindex+1) <= len(path.Metadata.Interfaces) && revokedInterfaces != nil
+//@   loop 2 invariant !revoked ==> forall k int :: 0 <= k && k < (rangeindex+1) ==> revAnswer(p.RevCache, path.Metadata.Interfaces[k].IA, uint64(path.Metadata.Interfaces[k].ID)) == nil
+//@   loop 2 invariant forall i int :: 0 <= i && i < len(newPaths) ==> unrevoked(p, newPaths[i])
+//@   ensures forall i int :: 0 <= i && i < len(result) ==> unrevoked(p, result[i])
